@@ -222,6 +222,13 @@ def l3_file(chk, ctx, c, tmp, ext, seen):
                 return None
         else:
             return None
+    try:
+        if ext:
+            with gzip.open(path, 'rb') as fh: text = fh.read().decode('utf-8')
+        else:
+            with open(path, newline='') as fh: text = fh.read()
+    except Exception:
+        text = None
     for mc in (False, True):
         try:
             if mc:
@@ -234,7 +241,7 @@ def l3_file(chk, ctx, c, tmp, ext, seen):
                 seen.add(key)
                 chk.fail(key, "Spectrum.from_file('%s') raised %s: %s (expected: the spectrum that was written)" % ('x.fs' + ext, type(e).__name__, e),
                          dict(inp, mask_corners=mc))
-            return None
+            return text
         bad = None
         if type(g) is not dadi.Spectrum: bad = 'type %s' % type(g).__name__
         elif tuple(g.shape) != tuple(c['shape']): bad = 'shape %r, written %r' % (tuple(g.shape), tuple(c['shape']))
@@ -249,13 +256,8 @@ def l3_file(chk, ctx, c, tmp, ext, seen):
                 bad = 'comments %r, written %r' % (coms, c['comments'])
         if bad:
             fail_once(chk, seen, 'roundtrip:%s:%s' % (tag, bad.split(' ')[0]), 'to_file -> from_file (mask_corners=%s): %s' % (mc, bad), dict(inp, mask_corners=mc))
-            return None
-    try:
-        if ext:
-            with gzip.open(path, 'rb') as f: return f.read().decode('utf-8')
-        with open(path, newline='') as f: return f.read()
-    except Exception:
-        return None
+            return text
+    return text
 
 def l3_old(chk, ctx, c, tmp, seen):
     dadi = ctx['dadi']
@@ -266,11 +268,16 @@ def l3_old(chk, ctx, c, tmp, seen):
     chk.l3(case_key(c, 'old')); chk.stat('l3_old_format')
     try:
         fs.to_file(path, precision=p, comment_lines=list(c['comments']), foldmaskinfo=False)
+        with open(path, newline='') as fh: text = fh.read()
+    except Exception as e:
+        fail_once(chk, seen, 'old_format:write:%s' % type(e).__name__, 'to_file(foldmaskinfo=False) raised %s: %s' % (type(e).__name__, e), inp)
+        return None
+    try:
         g, coms = dadi.Spectrum.from_file(path, mask_corners=False, return_comments=True)
         g2 = dadi.Spectrum.from_file(path)
     except Exception as e:
         fail_once(chk, seen, 'old_format:%s' % type(e).__name__, 'to_file(foldmaskinfo=False) -> from_file raised %s: %s' % (type(e).__name__, e), inp)
-        return None
+        return text
     bad = None
     n = len(vals)
     if tuple(g.shape) != tuple(c['shape']): bad = 'shape'
@@ -282,8 +289,50 @@ def l3_old(chk, ctx, c, tmp, seen):
     elif coms != [s.strip() for s in c['comments']]: bad = 'comments %r' % (coms,)
     if bad:
         fail_once(chk, seen, 'old_format:' + bad.split(' ')[0].rstrip(':'), 'pre-1.3 format round trip: ' + bad, inp)
-        return None
-    with open(path, newline='') as f: return f.read()
+    return text
+
+def l3_handmade(chk, ctx, c, tmp, rng, seen):
+    """a file laid out by hand from the documented format (not by to_file): '#' comment lines with or without a blank after
+    the '#', integers / the folded word / quoted labels separated by blanks or tabs, entries separated by blanks or tabs,
+    '\\n' or '\\r\\n' line ends.  from_file must return what was put in."""
+    dadi = ctx['dadi']
+    vals = case_vals(c)
+    seps = [' ', '  ', '\t', ' \t ']
+    sep = lambda: seps[int(rng.integers(len(seps)))]
+    nl = '\n' if rng.random() < 0.7 else '\r\n'
+    lines = []
+    for com in c['comments']:
+        st = com.strip()
+        lines.append(['#' + st, '# ' + st, '#   ' + st + '  ', '#\t' + st][int(rng.integers(4))])
+    hdr = ''
+    for dsize in c['shape']:
+        hdr += str(dsize) + sep()
+    hdr += 'folded' if c['folded'] else 'unfolded'
+    for lab in (c['labels'] or []):
+        hdr += [' ', '  '][int(rng.integers(2))] + '"' + lab + '"'
+    lines.append(hdr)
+    s1 = sep(); s2 = sep()
+    lines.append(s1.join('%.17g' % v for v in vals))
+    lines.append(s2.join('1' if b else '0' for b in c['mask']))
+    text = nl.join(lines) + nl
+    path = tmp.path('.fs')
+    with open(path, 'w', newline='') as f: f.write(text)
+    inp = dict(kind='handmade', text=text, case=c)
+    chk.l3(case_key(c, 'handmade' + repr((nl, s1, s2)))); chk.stat('l3_handmade')
+    try:
+        g, coms = dadi.Spectrum.from_file(path, mask_corners=False, return_comments=True)
+    except Exception as e:
+        fail_once(chk, seen, 'handmade:%s' % type(e).__name__, 'from_file on a file laid out by hand from the documented format raised %s: %s' % (type(e).__name__, e), inp)
+        return
+    bad = None
+    if tuple(g.shape) != tuple(c['shape']): bad = 'shape %r' % (tuple(g.shape),)
+    elif not same_floats(g.data, vals): bad = 'values differ from the 17-digit entries of the file'
+    elif np.ma.getmaskarray(g).ravel().tolist() != list(map(bool, c['mask'])): bad = 'mask differs'
+    elif bool(g.folded) != bool(c['folded']): bad = 'folded %r' % (g.folded,)
+    elif g.pop_ids != c['labels']: bad = 'pop_ids %r, file has %r' % (g.pop_ids, c['labels'])
+    elif coms != [x.strip() for x in c['comments']]: bad = 'comments %r, file has %r' % (coms, [x.strip() for x in c['comments']])
+    if bad:
+        fail_once(chk, seen, 'handmade:' + bad.split(' ')[0], 'from_file on a hand-laid-out file: ' + bad, inp)
 
 def l3_pickle(chk, ctx, c, seen):
     dadi = ctx['dadi']
@@ -327,14 +376,16 @@ def l3_array(chk, ctx, c, tmp, masked, fileobj, seen):
             b, coms = dadi.Numerics.array_from_file(path, return_comments=True)
     except Exception as e:
         fail_once(chk, seen, 'array_rw:%s' % type(e).__name__, 'array_to_file -> array_from_file raised %s: %s' % (type(e).__name__, e), inp)
-        return None
+        try:
+            with open(path, newline='') as f: return f.read()
+        except Exception:
+            return None
     bad = None
     if tuple(b.shape) != tuple(c['shape']): bad = 'shape %r' % (tuple(b.shape),)
     elif check_values(p, want, np.asarray(b, dtype=float).ravel().tolist()): bad = 'values: ' + check_values(p, want, np.asarray(b, dtype=float).ravel().tolist())
     elif coms != [s.strip() for s in c['comments']]: bad = 'comments %r' % (coms,)
     if bad:
         fail_once(chk, seen, 'array_rw:' + bad.split(' ')[0].rstrip(':'), 'array_to_file -> array_from_file: ' + bad, inp)
-        return None
     with open(path, newline='') as f: return f.read()
 
 # ------------------------------------------------------------------ P: the trusted parameter
@@ -624,6 +675,7 @@ def run_case(chk, ctx, c, tmp, rng, seen, heavy=True):
     t_gz = l3_file(chk, ctx, c, tmp, '.gz', seen)
     t_old = l3_old(chk, ctx, c, tmp, seen)
     l3_pickle(chk, ctx, c, seen)
+    l3_handmade(chk, ctx, c, tmp, rng, seen)
     masked = bool(rng.random() < 0.5)
     t_arr = l3_array(chk, ctx, c, tmp, masked, bool(rng.random() < 0.3), seen)
     if not have:
@@ -637,7 +689,7 @@ def run_case(chk, ctx, c, tmp, rng, seen, heavy=True):
             for name, text in pick:
                 chk.stat('mut_' + name)
                 k_fromfile(chk, ctx, d, tmp, text, 'from_file_handmade', note=name)
-    if t_gz is not None and 'to_file:gz:TypeError' not in seen:
+    if t_gz is not None and not any(k.startswith('to_file:gz') for k in seen):
         k_tofile(chk, d, c, t_gz, True, 'to_file_gz')
     if t_old is not None:
         k_tofile(chk, d, c, t_old, False, 'to_file_old')
@@ -718,7 +770,7 @@ def replay(chk, ctx, data):
     tmp = Tmp()
     seen = set()
     try:
-        if inp.get('kind') in ('file', 'old', 'pickle', 'array') and 'case' in inp:
+        if inp.get('kind') in ('file', 'old', 'pickle', 'array', 'handmade') and 'case' in inp:
             run_case(chk, ctx, norm_case(inp['case']), tmp, rng, seen)
         elif inp.get('kind') == 'text' and ctx['driver'] is not None:
             k_fromfile(chk, ctx, ctx['driver'], tmp, inp['text'], 'from_file_handmade', note=inp.get('note'))
